@@ -313,7 +313,8 @@ func Run(r *sim.R, prop string) {
 	e := &E{R: r, Prop: prop, G: &gen{r: r}}
 	r.Order = t.Weighted([]int{3, 2, 1}, "order-policy")
 	e.G.varexp = t.Chance(1, 3, "with-varexp")
-	if t.Chance(1, 6, "named-top-level") {
+	e.G.custom = t.Chance(1, 6, "custom-tag-names")
+	if !e.G.custom && t.Chance(1, 6, "named-top-level") {
 		e.S = topVStruct()
 		r.Probe("unpack: top-level target type with its own Validate method")
 	} else {
@@ -326,6 +327,10 @@ func Run(r *sim.R, prop string) {
 	e.Opts = []ucfg.Option{ucfg.PathSep(".")}
 	if e.G.varexp {
 		e.Opts = append(e.Opts, ucfg.VarExp)
+	}
+	if e.G.custom {
+		e.Opts = append(e.Opts, ucfg.StructTag("cfg"), ucfg.ValidatorTag("check"))
+		r.Probe("unpack: custom struct tag names (StructTag, ValidatorTag)")
 	}
 	if t.Chance(1, 3, "with-meta") {
 		e.Source = "file" + itoa(e.G.next()) + ".yml"
